@@ -405,7 +405,9 @@ def _distance_with_params(t):
 
 
 def _distance_with_params_ndim(t):
-    return distance(t[0], t[1], use_ndim=True, **t[2])
+    kwargs = dict(t[2])
+    kwargs['use_ndim'] = True
+    return distance(t[0], t[1], **kwargs)
 
 
 def _distance_c_with_params(t):
